@@ -35,7 +35,7 @@ Print Assumptions C05_skeleton_sorted.
 Definition K_d5 (rf2 : bool) : cfg :=
   {| c_cap := 1024; c_batch := 51; c_pub := {| on_batch := true; on_drain := true |}; c_dropping := false;
      c_tinit := 4; c_soft := 4; c_hard := 8; c_grace := 1; c_bits := 32; c_refresh2 := rf2; c_catch_all := true;
-     c_report_first := true; c_bt := {| reset_index_in_process := true; cap0_guard := true |}; c_bt_catch := true |}.
+     c_report_first := true; c_bt := {| reset_index_in_process := true; cap0_guard := true |}; c_bt_catch := true; c_flush_iv := 0 |}.
 Definition d5_cmds : list cmd :=
   [CLog 0 (mk_ev 1 0 4 50 0) false; CTick 5; CPoll []; CPoll [];
    CPoll [(1, 0, [CLog 1 (mk_ev 2 0 4 50 0) false; CTick 1; CLog 0 (mk_ev 3 0 4 50 0) false; CTick 2])];
@@ -53,7 +53,7 @@ Print Assumptions C05_refuted_old_order.
 Definition K_g0 : cfg :=
   {| c_cap := 1024; c_batch := 51; c_pub := {| on_batch := true; on_drain := true |}; c_dropping := false;
      c_tinit := 4; c_soft := 4; c_hard := 8; c_grace := 0; c_bits := 32; c_refresh2 := true; c_catch_all := true;
-     c_report_first := true; c_bt := {| reset_index_in_process := true; cap0_guard := true |}; c_bt_catch := true |}.
+     c_report_first := true; c_bt := {| reset_index_in_process := true; cap0_guard := true |}; c_bt_catch := true; c_flush_iv := 0 |}.
 Definition g0_cmds : list cmd :=
   [CLog 0 (mk_ev 1 0 4 50 0) false; CLog 1 (mk_ev 2 0 4 50 0) false; CPoll []; CPoll []; CPoll []; CTick 5;
    CPoll [(3, 1, [CTick 1; CLog 0 (mk_ev 3 0 4 50 0) false; CTick 1; CLog 1 (mk_ev 4 0 4 50 0) false])];
